@@ -400,18 +400,15 @@ func (c *Client) Auth(a sasl.Client) error {
 			err = toSMTPErr(&textproto.Error{Code: code, Msg: msg64})
 		}
 		if err == nil {
-			if code == 334 {
-				resp, err = a.Next(msg)
-			} else {
-				resp = nil
+			if code != 334 {
+				// 235: the exchange is over
+				break
 			}
+			resp, err = a.Next(msg)
 		}
 		if err != nil {
 			// abort the AUTH
 			c.cmd(501, "*")
-			break
-		}
-		if resp == nil {
 			break
 		}
 		resp64 = make([]byte, encoding.EncodedLen(len(resp)))
